@@ -715,6 +715,12 @@ func TestVerif_C25_ServerStop(t *testing.T) {
 	}
 
 	crash := c25NewCrash(r)
+	var dump *os.File // debugging aid: VERIF_C25_DUMP=<file> lists every evaluated history with its outcome class
+	if p := os.Getenv("VERIF_C25_DUMP"); p != "" {
+		s, _ := r.Shard()
+		dump, _ = os.Create(fmt.Sprintf("%s.%d", p, s))
+		defer dump.Close()
+	}
 	D := r.Pick(7, 12)
 	r.Set(c25P, "depth_bound", D)
 	r.Set(c25P, "max_alphabet", len(c25Events))
@@ -794,6 +800,9 @@ func TestVerif_C25_ServerStop(t *testing.T) {
 					continue
 				}
 				nEval++
+				if dump != nil {
+					fmt.Fprintf(dump, "%s | %v\n", c25HistString(mcs, evs), res.obs)
+				}
 				if res.nontriv {
 					nNontriv++
 				}
